@@ -46,6 +46,34 @@ type Script struct {
 	Tasks    [][]Step       `json:"tasks"`            // concurrent engines: one script per task
 	Schedule []int          `json:"schedule"`         // concurrent engines: scheduler choices
 	Expect   *Expect        `json:"expect,omitempty"` // set on replay files
+	// Prelude: runs of the same batch to execute, in this order and in the same
+	// process, before this script.  Used when a violation depends on state the
+	// code under test keeps for the lifetime of the process (what earlier runs
+	// registered, cached or pooled): the replay is then the history of runs.
+	Prelude *Prelude `json:"prelude,omitempty"`
+}
+
+type Prelude struct {
+	Batch   uint64 `json:"batch"`
+	Tier    string `json:"tier"`
+	Indices []int  `json:"indices"`
+	Repeat  int    `json:"repeat,omitempty"` // execute the whole list this many times (default 1)
+}
+
+// RunPrelude executes the prelude runs (results ignored).
+func RunPrelude(e Engine, s *Script, exec func(*Script)) {
+	if s.Prelude == nil {
+		return
+	}
+	rep := s.Prelude.Repeat
+	if rep < 1 {
+		rep = 1
+	}
+	for ; rep > 0; rep-- {
+		for _, idx := range s.Prelude.Indices {
+			exec(GenScript(e, s.Prelude.Batch, idx, s.Prelude.Tier))
+		}
+	}
 }
 
 // Expect is what a replay file must reproduce.
@@ -70,6 +98,11 @@ func (s *Script) Clone() *Script {
 	}
 	c.Schedule = append([]int(nil), s.Schedule...)
 	c.Expect = nil
+	if s.Prelude != nil {
+		p := *s.Prelude
+		p.Indices = append([]int(nil), s.Prelude.Indices...)
+		c.Prelude = &p
+	}
 	return &c
 }
 
